@@ -22,6 +22,7 @@ structure Slot where
   pushes : Bool := false        -- `client::PushPromises` taken from the response future
   pushesTaken : Bool := false   -- `push_promises()` may be called once
   pushedFut : Bool := false     -- `client::PushedResponseFuture` (the slot of a promised stream)
+  pushedResp : Bool := false    -- the slot's responder is a `server::SendPushedResponse` (no informational, no push)
   deriving Repr
 
 /-- `client::SendRequest`: the `pending` stream reference -/
@@ -418,7 +419,7 @@ def stepConn (w : World) (c : Conn) (ws : List String) : Option (World × String
     match getSlot w k, status.toNat? with
     | some (_, slot), some st =>
       if st > 65535 then none
-      else if !slot.responder then some (finish w c "nohandle")
+      else if !slot.responder || slot.pushedResp then some (finish w c "nohandle")
       else if st < 100 || st > 999 then none
       else if st ≥ 200 then some (finish w c ("err:" ++ renderApiErr (.user .invalidInformationalStatusCode)))
       else
@@ -429,7 +430,7 @@ def stepConn (w : World) (c : Conn) (ws : List String) : Option (World × String
   | ["cn_push", k, path] =>
     match getSlot w k with
     | some (_, slot) =>
-      if !slot.responder then some (finish w c "nohandle")
+      if !slot.responder || slot.pushedResp then some (finish w c "nohandle")
       else
         let fields := [field ":method" "GET", field ":scheme" "http", field ":authority" "example.com",
                        field ":path" (if path.isEmpty then "/" else path)]
@@ -439,6 +440,21 @@ def stepConn (w : World) (c : Conn) (ws : List String) : Option (World × String
           let sid := (s.stream child).id
           -- the harness drops the `SendPushedResponse` at once
           some (finish w (withStreams c (s.dropStreamRef child)) s!"ok:{sid}")
+    | none => none
+  | ["cn_pushk", k, path] =>
+    match getSlot w k with
+    | some (_, slot) =>
+      if !slot.responder || slot.pushedResp then some (finish w c "nohandle")
+      else
+        let fields := [field ":method" "GET", field ":scheme" "http", field ":authority" "example.com",
+                       field ":path" (if path.isEmpty then "/" else path)]
+        match c.streams.refSendPushPromise slot.key true fields with
+        | (s, .error e) => some (finish w (withStreams c s) ("err:" ++ renderApiErr (.user e)))
+        | (s, .ok child) =>
+          let sid := (s.stream child).id
+          -- the harness keeps the `SendPushedResponse` in a new slot
+          let w := { w with slots := w.slots ++ [{ key := child, sid := sid, responder := true, pushedResp := true }] }
+          some (finish w (withStreams c s) s!"ok:{w.slots.length - 1}:{sid}")
     | none => none
   | ["cn_graceful"] =>
     if !w.isServer || w.connGone then some (finish w c "nohandle")
